@@ -68,6 +68,16 @@ def strategy(name):
         if draw(st.booleans()):
             x = draw(gen.decorations(name, st.just(x)))
         y = draw(gen.decorations(name, st.just(x)))
+        k = draw(st.integers(0, 7))
+        if k <= 1 and any(c.isalpha() for c in y):
+            # case variants whether or not the probe found the format case-insensitive as a whole (the pair only counts
+            # when compact() agrees): all upper, all lower, or one letter flipped
+            if k == 0:
+                y = draw(st.sampled_from([y.upper(), y.lower(), y.swapcase()]))
+            else:
+                idx = [i for i, c in enumerate(y) if c.isalpha()]
+                i = draw(st.sampled_from(idx))
+                y = y[:i] + y[i].swapcase() + y[i + 1:]
         return {'mod': name, 'x': core.enc(x), 'y': core.enc(y)}
     return pair()
 
